@@ -131,6 +131,21 @@ pub fn run_queries(sink: &mut Sink, t: &GTree, only: Option<&[Vec<usize>]>, ops:
             sink.stat(&format!("writable.{}", resp.replace(' ', "-")));
             sink.emit(format!("scope writable {} {}", path_str(path), wire), resp);
         }
+        if ops.len() == QUERY_OPS.len() {
+            // the name types (scope_names.rs): one line for the model, the laws on the implementation
+            match guarded(|| crate::scope_names::xmlname_obs(&xot, &vocab, *node)) {
+                Some(obs) => {
+                    sink.stat("op.xmlname");
+                    sink.emit(format!("scope xmlname {} {}", path_str(path), wire), crate::scope_names::xmlname_wire(&obs));
+                    crate::scope_names::check_xmlnames(sink, &xot, &vocab, t, path, *node, &oracle::resolve(t, path), &obs);
+                }
+                None => {
+                    sink.stat("resp.panic");
+                    sink.emit(format!("scope xmlname {} {}", path_str(path), wire), "panic".to_string());
+                    oracle::fail(sink, "C09", "C09:name-type-conversion-panics", "a conversion between RefName / OwnedName / CreateName panicked", t, path, "xmlname");
+                }
+            }
+        }
         oracle::check_node(sink, &xot, &vocab, t, path, *node);
     }
 }
